@@ -582,15 +582,16 @@ func init() {
 	bg := context.Background()
 	eng.Register(&eng.Scenario{
 		Name: "csync-L5", Props: []string{"C02", "C01"}, MustFinish: true, ObsNames: stdObs,
-		Doc:   "RWMutex: reader R1 holds behind a gate, writer W (never cancelled) waits, reader R2 (Lock, TryLock or RLocker().Lock, choice) is issued once W is parked; then R1 releases so that W and R2 are woken together: R2 may not be granted before W",
+		Doc:   "RWMutex: a reader or a writer (choice) R1 holds behind a gate, writer W (never cancelled) waits, reader R2 (Lock, TryLock or RLocker().Lock, choice) is issued once W is parked; then R1 releases so that W and R2 are woken together: R2 may not be granted before W",
 		Quick: eng.Bounds{PB: 2}, Thorough: eng.Bounds{PB: 4},
 		Body: func() {
 			var m csync.RWMutex
 			g1, g2, gF := &vsched.Gate{}, &vsched.Gate{}, &vsched.Gate{}
 			phases(gates(g2), gates(g1), gates(gF))
-			rel, _ := m.Lock(bg, false)
-			acquired(false)
-			T("R1", func() { g1.Wait(); releasing(false); rel() })
+			hw := vsched.Choose(2) == 1 // the first holder is a reader or a writer (a writer queued behind a writer waits all the same)
+			rel, _ := m.Lock(bg, hw)
+			acquired(hw)
+			T("R1", func() { g1.Wait(); releasing(hw); rel() })
 			T("W", func() { steadyWriter(&m) })
 			how := vsched.Choose(3)
 			T("R2", func() { lateReaderVia(&m, g2, how) })
